@@ -270,10 +270,16 @@ def random_model(rnd, size):
                     f['args'] = ['a1', 'a2'][:rnd.randint(1, 2)]
                     if rnd.random() < 0.3:
                         f['lastArgArray'] = True
+                    elif rnd.random() < 0.2:
+                        f['lastArgArray'] = False        # the optional member spelled out
+                elif rnd.random() < 0.3:
+                    f['lastArgArray'] = rnd.random() < 0.7     # "..." without any named parameter: every argument is ignored
                 out.append({'function': f})
             else:
                 args = [rnd.choice([V('n'), {'number': 7.0}, {'string': 's'}]) for _ in range(rnd.randint(0, 3))]
                 call = {'function': {'name': rnd.choice(fnames), 'args': args}}
+                if not args and rnd.random() < 0.5:
+                    del call['function']['args']          # the optional member left out: a call without arguments
                 out.append({'expr': {'name': 'r', 'expr': call}} if rnd.random() < 0.6 else {'expr': {'expr': call}})
         return out
     out = stmts(rnd.randint(1, min(40, 4 + 6 * size)), False)
